@@ -11,6 +11,7 @@
 #include "lltdPort.h"       /* from /repo: keeps the port signatures honest */
 
 vf_world W;
+uint64_t vf_clock_origin = 1000000;
 uint8_t  vf_trace_bytes[VF_TRACE_BYTES];
 /* receive buffers are followed by 1 MiB of zeros so that, in the plain flavour, a walk driven by a
  * wire counter of 0xFFFF stays inside harness memory (the san flavour uses exact heap blocks instead) */
@@ -392,7 +393,7 @@ void vf_world_reset(void) {
     heap_reset();
     if (core_bss_size) raw_zero(__start_core_bss, core_bss_size);
     if (core_data_size) raw_copy(__start_core_data, core_data_image, core_data_size);
-    W.now_ms = 1000000;
+    W.now_ms = vf_clock_origin;
     memset(&W.env, 0, sizeof W.env);
     memset(&W.led, 0, sizeof W.led);
     vf_faultplan keep = W.fp;
